@@ -131,6 +131,12 @@ func (P *Prog) isAnalysed(f *ssa.Function) bool {
 // callTargets returns the analysed functions a call may reach and whether
 // unanalysed code may also be reached.
 func (P *Prog) callTargets(c *ssa.CallCommon) (targets []*ssa.Function, external bool) {
+	if c.IsInvoke() && isLoggerIface(c.Value.Type()) {
+		return nil, false
+	}
+	if callee := c.StaticCallee(); callee != nil && P.pureExternal(callee) {
+		return nil, false
+	}
 	if c.IsInvoke() {
 		iface, _ := c.Value.Type().Underlying().(*types.Interface)
 		if iface == nil {
